@@ -411,8 +411,11 @@ def const_check(c, o, fail):
             fail("selector:{}:exception".format(sel), "selector / read raised " + str(ot), impl=ot)
             break
         exp = [val, err, kk * val + cc, abs(kk) * err]
-        bad = [f for f, a, b in zip(("value", "error", "downstream-value", "downstream-error"), ot, exp)
-               if not (a == b or abs(a - b) <= 1e-12 * abs(b))]
+        # relative to the size of the TERMS (k*value and c may cancel), never to the result
+        mags = [abs(val), abs(err), abs(kk * val) + abs(cc), abs(kk) * abs(err)]
+        bad = [f for f, a, b, g in zip(("value", "error", "downstream-value", "downstream-error"), ot,
+                                       exp, mags)
+               if not (a == b or abs(a - b) <= 1e-12 * g)]
         if bad:
             fail("selector:{}:{}".format(sel, bad[0]), "after {} the {} is not the selected statistic "
                  "(equal readings)".format(sel, bad[0]), impl=ot, expected=exp, step=i, clause="selectors")
